@@ -65,6 +65,42 @@ type calCase struct {
 	timeout   time.Duration // context deadline (0 = none)
 	waitDelay time.Duration
 	exeMode   string // "", "missing", "noexec", "garbage"
+	// pipes: the host reads the process's output itself - "readall": StdoutPipe + StderrPipe, io.ReadAll both, Wait;
+	// "readsome": reads cap bytes of stdout, closes the pipe, Wait
+	pipes string
+}
+
+type pipeCmd interface {
+	StdoutPipe() (io.ReadCloser, error)
+	StderrPipe() (io.ReadCloser, error)
+	Start() error
+	Wait() error
+}
+
+func runPiped(c calCase, cmd pipeCmd) (int, int, error) {
+	op, err := cmd.StdoutPipe()
+	if err != nil {
+		return 0, 0, err
+	}
+	ep, err := cmd.StderrPipe()
+	if err != nil {
+		return 0, 0, err
+	}
+	if err := cmd.Start(); err != nil {
+		return 0, 0, err
+	}
+	var so, se []byte
+	if c.pipes == "readall" {
+		so, _ = io.ReadAll(op)
+		se, _ = io.ReadAll(ep)
+	} else {
+		so = make([]byte, c.cap)
+		n, _ := io.ReadFull(op, so)
+		so = so[:n]
+		op.Close()
+	}
+	err = cmd.Wait()
+	return len(so), len(se), err
 }
 
 type calResult struct {
@@ -116,9 +152,14 @@ func runReal(t *testing.T, c calCase, dir string) calResult {
 	var so, se bytes.Buffer
 	cmd := exec.CommandContext(ctx, exe, "cmd")
 	cmd.Stdin = bytes.NewReader([]byte("{}"))
+	cmd.WaitDelay = c.waitDelay
+	if c.pipes != "" {
+		start := time.Now()
+		no, ne, err := runPiped(c, cmd)
+		return calResult{classify(err, ctx), no, ne, time.Since(start) > calLate}
+	}
 	cmd.Stdout = capWriter(c.readFrom, &so, c.cap)
 	cmd.Stderr = capWriter(c.readFrom, &se, c.cap)
-	cmd.WaitDelay = c.waitDelay
 	start := time.Now()
 	err := cmd.Run()
 	el := time.Since(start)
@@ -152,9 +193,15 @@ func runSim(t *testing.T, c calCase, dir string) calResult {
 			var so, se bytes.Buffer
 			cmd := simexec.CommandContext(ctx, exe, "cmd")
 			cmd.Stdin = bytes.NewReader([]byte("{}"))
+			cmd.WaitDelay = c.waitDelay
+			if c.pipes != "" {
+				start := time.Now()
+				no, ne, err := runPiped(c, cmd)
+				r = calResult{classify(err, ctx), no, ne, time.Since(start) > calLate}
+				return
+			}
 			cmd.Stdout = capWriter(c.readFrom, &so, c.cap)
 			cmd.Stderr = capWriter(c.readFrom, &se, c.cap)
-			cmd.WaitDelay = c.waitDelay
 			start := time.Now()
 			err := cmd.Run()
 			el := time.Since(start)
@@ -184,6 +231,11 @@ func TestCalibrate(t *testing.T) {
 		{name: "bg-holds-pipes-waitdelay", sh: `sleep 3 & exit 0`, steps: []simexec.Step{{Op: "hold", Fds: []int{1, 2}, Dur: 3000 * ms}, {Op: "exit"}}, cap: 1000, timeout: 200 * time.Millisecond, waitDelay: 300 * time.Millisecond},
 		{name: "bg-holds-pipes-waitdelay-noctx", sh: `sleep 3 & exit 0`, steps: []simexec.Step{{Op: "hold", Fds: []int{1, 2}, Dur: 3000 * ms}, {Op: "exit"}}, cap: 1000, waitDelay: 300 * time.Millisecond},
 		{name: "slow-deadline-bg-waitdelay", sh: `sleep 3 & sleep 5`, steps: []simexec.Step{{Op: "hold", Fds: []int{1, 2}, Dur: 3000 * ms}, {Op: "sleep", Dur: 5000 * ms}, {Op: "exit"}}, cap: 1000, timeout: 200 * time.Millisecond, waitDelay: 300 * time.Millisecond},
+		{name: "pipes-readall-small", pipes: "readall", sh: `printf noise >&2; printf hello`, steps: []simexec.Step{{Op: "out", Fd: 2, Data: "noise"}, {Op: "out", Fd: 1, Data: "hello"}, {Op: "exit"}}, cap: 1000},
+		{name: "pipes-readall-large", pipes: "readall", sh: `exec head -c 4000000 /dev/zero`, steps: []simexec.Step{{Op: "out", Fd: 1, Fill: 4000000}, {Op: "exit"}}, cap: 1000},
+		{name: "pipes-readall-exit3", pipes: "readall", sh: `printf oops >&2; exit 3`, steps: []simexec.Step{{Op: "out", Fd: 2, Data: "oops"}, {Op: "exit", Code: 3}}, cap: 1000},
+		{name: "pipes-readsome-large", pipes: "readsome", sh: `exec head -c 4000000 /dev/zero`, steps: []simexec.Step{{Op: "out", Fd: 1, Fill: 4000000}, {Op: "exit"}}, cap: 1000},
+		{name: "pipes-readsome-sigpipe-ignored", pipes: "readsome", sh: `trap '' PIPE; head -c 4000000 /dev/zero 2>/dev/null; exit 0`, steps: []simexec.Step{{Op: "sigpipe-ignore"}, {Op: "out", Fd: 1, Fill: 4000000}, {Op: "exit"}}, cap: 1000},
 		{name: "readfrom-under-cap", readFrom: true, sh: `printf hello`, steps: []simexec.Step{{Op: "out", Fd: 1, Data: "hello"}, {Op: "exit"}}, cap: 1000},
 		{name: "readfrom-over-cap-small", readFrom: true, sh: `head -c 5000 /dev/zero`, steps: []simexec.Step{{Op: "out", Fd: 1, Fill: 5000}, {Op: "exit"}}, cap: 1000},
 		{name: "readfrom-over-cap-large", readFrom: true, sh: `exec head -c 4000000 /dev/zero`, steps: []simexec.Step{{Op: "out", Fd: 1, Fill: 4000000}, {Op: "exit"}}, cap: 1000},
